@@ -289,3 +289,155 @@ Lemma C04_layout l :
 Proof.
   split; [reflexivity|]. split; [apply marshal_length | apply marshal_pairs_length].
 Qed.
+
+(** ** Top-level readers: graceful on every byte string, and accept only what marshal writes *)
+Lemma bytes_ok_cons_inv x (l : bytes) : bytes_ok (x :: l) -> byte_ok x /\ bytes_ok l.
+Proof. intros H; inversion H; auto. Qed.
+
+Definition frame_spec (b : bytes) (r : res (list hpair)) : Prop :=
+  match r with
+  | Ok l => exists payload, b = marshal l ++ payload
+  | Err EInvalidData | Err EBadVersion => True
+  | _ => False
+  end.
+
+Lemma unmarshal_headers_from_frame_spec frame :
+  bytes_ok frame -> zlen frame < 2147483648 ->
+  match unmarshal_headers_from_frame frame with
+  | Ok l => exists payload, frame = be32 (as_uint32 (header_size l)) ++ marshal_pairs l ++ payload
+  | Err EInvalidData => True
+  | _ => False
+  end.
+Proof.
+  intros Hok Hlen. unfold unmarshal_headers_from_frame.
+  pose proof (zlen_nonneg frame) as Hn.
+  destruct (zlen frame <? 4) eqn:E4; [exact I|]. apply Z.ltb_ge in E4.
+  destruct (slice_graceful frame 0 4) as [sb [Esb Lsb]]; try lia.
+  rewrite Esb. cbn [bind].
+  apply slice_ok_inv in Esb. destruct Esb as (_ & _ & _ & Esb).
+  assert (Hsbok : bytes_ok sb) by (subst sb; apply sub_ok; auto).
+  pose proof (un_be32_range sb Hsbok) as Hr. pose proof (as_int32_range _ Hr) as Hr'.
+  set (size := as_int32 (un_be32 sb)) in *.
+  destruct (size <? 0) eqn:Es0; [exact I|]. apply Z.ltb_ge in Es0.
+  rewrite (wrap32_id (zlen frame - 4)) by lia.
+  destruct (zlen frame - 4 <? size) eqn:Es1; [exact I|]. apply Z.ltb_ge in Es1.
+  cbn [orb]. rewrite (wrap32_id (size + 4)) by lia.
+  pose proof (read_pairs_spec (pairs_fuel frame) frame 4 (size + 4) [] Hok) as S.
+  unfold pairs_spec in S.
+  destruct (read_pairs (pairs_fuel frame) frame 4 (size + 4) []) as [l|e|p|] eqn:ER;
+    try (apply S; try lia; unfold pairs_fuel, zlen in *; lia).
+  destruct S as [ps [El Eps]]; try lia; [unfold pairs_fuel, zlen in *; lia|].
+  cbn [rev app] in El. subst ps.
+  exists (sub frame (size + 4) (zlen frame)).
+  assert (Ehs : header_size l = size).
+  { rewrite <- marshal_pairs_length, <- Eps. rewrite sub_length; lia. }
+  rewrite Ehs.
+  assert (Esz : be32 (as_uint32 size) = sb).
+  { unfold size. apply int32_nonneg_be32; auto. unfold zlen in Lsb; lia. }
+  rewrite Esz, <- Eps, Esb.
+  rewrite <- (sub_split frame 4 (size + 4) (zlen frame)) by lia.
+  rewrite <- (sub_split frame 0 4 (zlen frame)) by lia.
+  unfold sub. rewrite Z.sub_0_r. change (Z.to_nat 0) with 0%nat. cbn [drop].
+  unfold zlen. rewrite Nat2Z.id.
+  clear. induction frame as [|x f IH]; simpl; [reflexivity | now rewrite <- IH].
+Qed.
+
+Lemma frame_spec_holds b : bytes_ok b -> zlen b < 2147483648 ->
+  frame_spec b (get_headers_from_frame b).
+Proof.
+  intros Hok Hlen. unfold get_headers_from_frame, frame_spec.
+  destruct b as [|v rest]; [exact I|].
+  apply bytes_ok_cons_inv in Hok. destruct Hok as [_ Hok].
+  rewrite zlen_cons in Hlen. pose proof (zlen_nonneg rest).
+  destruct (v =? 0) eqn:Ev; [|exact I]. apply Z.eqb_eq in Ev. subst v.
+  pose proof (unmarshal_headers_from_frame_spec rest Hok) as S.
+  destruct (unmarshal_headers_from_frame rest) as [l|e|p|]; try (apply S; lia).
+  - destruct S as [payload E]; [lia|]. exists payload. unfold marshal. rewrite E.
+    cbn [app]. f_equal.
+  - destruct e; try (apply S; lia); exact I.
+Qed.
+
+Lemma frame_graceful b : bytes_ok b -> zlen b < 2147483648 -> graceful (get_headers_from_frame b).
+Proof.
+  intros Hok Hlen. pose proof (frame_spec_holds b Hok Hlen) as S.
+  unfold frame_spec, graceful in *.
+  destruct (get_headers_from_frame b) as [l|e|p|]; auto.
+Qed.
+
+Lemma read_full_inv src n a r : read_full src n = Ok (a, r) ->
+  src = a ++ r /\ zlen a = n /\ 0 <= n.
+Proof.
+  unfold read_full. destruct ((0 <=? n) && (n <=? zlen src)) eqn:E; [|discriminate].
+  intros [= <- <-]. rewrite andb_true_iff in E. destruct E as [E1 E2].
+  split; [symmetry; apply take_drop|]. split; [|lia].
+  unfold zlen in *. rewrite take_length. lia.
+Qed.
+Lemma read_full_graceful src n : graceful (read_full src n).
+Proof. unfold read_full. destruct ((0 <=? n) && (n <=? zlen src)); exact I. Qed.
+
+Definition stream_spec (b : bytes) (r : res (list hpair * bytes)) : Prop :=
+  match r with
+  | Ok (l, rest) => b = marshal l ++ rest
+  | Err EInvalidData | Err EBadVersion | Err EEOF => True
+  | _ => False
+  end.
+
+Lemma bytes_ok_app_inv (a b : bytes) : bytes_ok (a ++ b) -> bytes_ok a /\ bytes_ok b.
+Proof. unfold bytes_ok. rewrite Forall_app. auto. Qed.
+
+Lemma stream_spec_holds b : bytes_ok b -> zlen b < 2147483648 -> stream_spec b (read_header b).
+Proof.
+  intros Hok Hlen. unfold read_header, stream_spec.
+  destruct (read_full b 1) as [[vb src1]|e|p|] eqn:E1; cbn [bind];
+    try (unfold read_full in E1; destruct ((0 <=? 1) && (1 <=? zlen b)); discriminate).
+  2:{ unfold read_full in E1. destruct ((0 <=? 1) && (1 <=? zlen b)); [discriminate|].
+      injection E1 as <-. exact I. }
+  apply read_full_inv in E1. destruct E1 as (Eb & Lvb & _).
+  destruct vb as [|v [|? ?]]; try (unfold zlen in Lvb; simpl in Lvb; lia).
+  destruct (v =? 0) eqn:Ev; [|exact I]. apply Z.eqb_eq in Ev. subst v.
+  subst b. apply bytes_ok_app_inv in Hok. destruct Hok as [_ Hok1].
+  rewrite zlen_app in Hlen. change (zlen [0]) with 1 in Hlen.
+  unfold unmarshal_headers_stream.
+  destruct (read_full src1 4) as [[sb src2]|e|p|] eqn:E2; cbn [bind];
+    try (unfold read_full in E2; destruct ((0 <=? 4) && (4 <=? zlen src1)); discriminate).
+  2:{ unfold read_full in E2. destruct ((0 <=? 4) && (4 <=? zlen src1)); [discriminate|].
+      injection E2 as <-. exact I. }
+  apply read_full_inv in E2. destruct E2 as (Es1 & Lsb & _).
+  subst src1. apply bytes_ok_app_inv in Hok1. destruct Hok1 as [Hsbok Hok2].
+  rewrite zlen_app in Hlen.
+  pose proof (un_be32_range sb Hsbok) as Hr. pose proof (as_int32_range _ Hr) as Hr'.
+  set (size := as_int32 (un_be32 sb)) in *.
+  destruct (size <? 0) eqn:Es0; [exact I|].
+  unfold make_bytes. rewrite Es0. cbn [bind]. apply Z.ltb_ge in Es0.
+  destruct (read_full src2 size) as [[buff src3]|e|p|] eqn:E3; cbn [bind];
+    try (unfold read_full in E3; destruct ((0 <=? size) && (size <=? zlen src2)); discriminate).
+  2:{ unfold read_full in E3. destruct ((0 <=? size) && (size <=? zlen src2)); [discriminate|].
+      injection E3 as <-. exact I. }
+  apply read_full_inv in E3. destruct E3 as (Es2 & Lbuff & _).
+  subst src2. apply bytes_ok_app_inv in Hok2. destruct Hok2 as [Hbok _].
+  rewrite zlen_app in Hlen. pose proof (zlen_nonneg src3).
+  pose proof (read_pairs_spec (pairs_fuel buff) buff 0 size [] Hbok) as S.
+  unfold pairs_spec in S.
+  destruct (read_pairs (pairs_fuel buff) buff 0 size []) as [l|e|p|] eqn:ER; cbn [bind];
+    try (apply S; try lia; unfold pairs_fuel, zlen in *; lia).
+  - destruct S as [ps [El Eps]]; try lia; [unfold pairs_fuel, zlen in *; lia|].
+    cbn [rev app] in El. subst ps.
+    assert (Ebuff : sub buff 0 size = buff).
+    { unfold sub. rewrite Z.sub_0_r. change (Z.to_nat 0) with 0%nat. cbn [drop].
+      rewrite <- Lbuff. unfold zlen. rewrite Nat2Z.id.
+      clear. induction buff as [|x f IH]; simpl; [reflexivity | now rewrite IH]. }
+    rewrite Ebuff in Eps.
+    assert (Ehs : header_size l = size) by (rewrite <- marshal_pairs_length, <- Eps; exact Lbuff).
+    unfold marshal. rewrite Ehs.
+    assert (Esz : be32 (as_uint32 size) = sb).
+    { unfold size. apply int32_nonneg_be32; auto. unfold zlen in Lsb; lia. }
+    rewrite Esz, <- Eps. cbn [app]. f_equal. rewrite <- !app_assoc. reflexivity.
+  - destruct e; try (apply S; try lia; unfold pairs_fuel, zlen in *; lia); exact I.
+Qed.
+
+Lemma stream_graceful b : bytes_ok b -> zlen b < 2147483648 -> graceful (read_header b).
+Proof.
+  intros Hok Hlen. pose proof (stream_spec_holds b Hok Hlen) as S.
+  unfold stream_spec, graceful in *.
+  destruct (read_header b) as [[l r]|e|p|]; auto.
+Qed.
